@@ -48,7 +48,7 @@ CHECKS = {
     "C02": {
         "level": "exploration",
         "engine": "E1",
-        "needs_bins": [],
+        "needs_bins": ["mrp", "mrjob", "stagebin"],
         "technique": "property-based testing (rapid): invariant over the logical event history of generated adversarial completion schedules vs the reference dependency relation",
         "level_text": ("At every job start the harness checks, against the reference model's value provenance (weakest reading: only producers the consumed values "
                        "actually derive from, per instance), that every producer instance has finished, that split < chunks < join inside a fork, and that preflights "
@@ -56,21 +56,23 @@ CHECKS = {
         "level_note": "In E1 'start' is the hand-over to the job manager; real process start times are covered by the E2 sample.",
         "rule": _SEM_RULE + "Non-trivial (C02): at some point >= 2 jobs were pending and a job other than the oldest was finished first, or a dependency crosses a pipeline boundary, or forks are expanded at run time.",
         "assumptions": _SEM_ASSUME,
-        "units": [U("props/run", "TestRunSemantics", (700, 14), (12000, 15), env={"VERIF_STATS_PROP": "C02"})],
-        "floors": {"quick": {"dep-crosses-pipeline": 300, "dynamic-forks": 60, "preflight": 100}},
+        "units": [U("props/run", "TestRunSemantics", (700, 14), (12000, 15), env={"VERIF_STATS_PROP": "C02"}),
+                  U("props/run", "TestE2Run", (60, 6), (1500, 8))],
+        "floors": {"quick": {"e2-run": 250, "dep-crosses-pipeline": 300, "dynamic-forks": 60, "preflight": 100}},
     },
     "C03": {
         "level": "exploration",
         "engine": "E1",
-        "needs_bins": [],
+        "needs_bins": ["mrp", "mrjob", "stagebin"],
         "technique": "property-based testing (rapid): executed-job multiset of generated runs equals the reference model's job multiset; deterministic no-progress predicate for stalls",
         "level_text": ("Per call and phase the multiset of jobs handed to the job manager (identified by their canonical arguments) must equal the model's: nothing twice, "
                        "nothing skipped, nothing for disabled / empty-mapped calls; the run must reach completion (4 fruitless refresh+step rounds with no pending job = stalled). Exploration."),
         "level_note": "Remote double submission is only reachable through the E2 fake_remote sample.",
         "rule": _SEM_RULE + "Non-trivial (C03): a mapped call of size != 1, a call disabled at run time, a map over an empty collection, or a split returning != 1 chunks.",
         "assumptions": _SEM_ASSUME,
-        "units": [U("props/run", "TestRunSemantics", (700, 14), (12000, 15), env={"VERIF_STATS_PROP": "C03"})],
-        "floors": {"quick": {"disabled-true": 150, "map-over-empty": 30, "chunks:0": 100, "chunks:11": 50}},
+        "units": [U("props/run", "TestRunSemantics", (700, 14), (12000, 15), env={"VERIF_STATS_PROP": "C03"}),
+                  U("props/run", "TestE2Run", (60, 6), (1500, 8))],
+        "floors": {"quick": {"e2-run": 250, "disabled-true": 150, "map-over-empty": 30, "chunks:0": 100, "chunks:11": 50}},
     },
     "C09": {
         "level": "exploration",
